@@ -682,3 +682,227 @@ Proof.
   rewrite (run_ops_lo e1 a1 q ops B1 C1 cs Rs), (run_ops_lo e2 a2 q ops B2 C2 cs Rs). reflexivity.
 Qed.
 End AllocRun.
+
+(* ------------------------------------------------------------------ *)
+(* histories                                                           *)
+(* ------------------------------------------------------------------ *)
+Section History.
+Variable sqrt_o : Qc -> Qc.
+Hypothesis sqrt_mono : forall x y, x <= y -> sqrt_o x <= sqrt_o y.
+Variables leg_input leg_output : Type.
+Variable leg_build : leg_input -> leg_output.
+Variable leg_params : leg_input -> Qc * Qc * Qc.
+Variables lo hi : Qc.
+Hypothesis Lh : lo <= hi.
+Let alo := sqrt_o lo.
+Let ahi := sqrt_o hi.
+Notation opn := (opn leg_input).
+Notation step := (step sqrt_o leg_input leg_output leg_build leg_params).
+Notation run := (run sqrt_o leg_input leg_output leg_build leg_params).
+Notation op_cand := (op_cand sqrt_o leg_input).
+
+Lemma Ah : alo <= ahi. Proof. apply sqrt_mono. exact Lh. Qed.
+
+(* the tolerances in the state, if defined, lie in the band; the store is well formed *)
+Definition eps_ok (e : option (Qc * Qc)) : Prop :=
+  match e with Some (e, a) => band lo hi e /\ band alo ahi a | None => True end.
+Definition st_ok (s : gstate) : Prop := eps_ok (g_eps s) /\ mem_wf (g_mem s).
+(* an operation of the history: whatever it would install lies in the band; its posts are in normal form *)
+Definition cand_ok (o : opn) : Prop :=
+  match op_cand o with Some c => band lo hi c | None => True end.
+Definition posts_ok (o : opn) : Prop :=
+  match o with OSat _ ps => Forall post_ok ps | _ => True end.
+
+Lemma first_writer_ok cur cand : eps_ok cur -> match cand with Some c => band lo hi c | None => True end ->
+  eps_ok (first_writer sqrt_o cur cand).
+Proof.
+  intros H C. destruct cur as [[e a]|]; [exact H|]. destruct cand as [c|]; [|exact Logic.I].
+  cbn. split; [exact C|]. destruct C as [C1 C2]. split; apply sqrt_mono; assumption.
+Qed.
+
+Lemma s_init_ok : st_ok s_init.
+Proof. split; [exact Logic.I|]. intros j v h l E. destruct j; discriminate. Qed.
+
+Lemma step_ok s o : st_ok s -> cand_ok o -> posts_ok o -> st_ok (fst (step s o)).
+Proof.
+  intros [He Hm] C P. unfold cand_ok in C. destruct o as [t|d|q ops cells|ps|x]; cbn in *.
+  - split; [apply first_writer_ok; assumption|exact Hm].
+  - split; [apply first_writer_ok; assumption|exact Hm].
+  - split; [apply first_writer_ok; assumption|exact Hm].
+  - unfold op_sat.
+    destruct (run_posts_spec ps (g_mem s) empty_mgr (inv_empty _ Hm) P) as (m' & s' & sts & E & I & _).
+    rewrite E. cbn. split; [exact He|exact (inv_wf _ _ I)].
+  - split; [exact He|exact Hm].
+Qed.
+
+Lemma run_ok h : forall s, st_ok s -> Forall cand_ok h -> Forall posts_ok h -> st_ok (run h s).
+Proof.
+  induction h as [|o r IH]; intros s Hs Hc Hp; [exact Hs|].
+  inversion Hc; inversion Hp; subst. cbn [State.run fold_left]. apply IH; [apply step_ok|..]; assumption.
+Qed.
+
+(* ---- the probe ---- *)
+(* a netlist that has at least one dimension (otherwise nothing in it is compared with a tolerance) *)
+Definition netlist_has_dim (t : YT.ytree) : Prop :=
+  forall p ms1, NR.parse_netlist t = NR.Ok p -> NR.cr_squares sqrt_o (fst p) = NR.Ok ms1 ->
+    NR.smallest_distance sqrt_o ms1 <> None.
+Definition probe_robust (p : opn) : Prop :=
+  match p with
+  | ONetlist _ t => robust_netlist sqrt_o lo hi alo ahi t = true /\ netlist_has_dim t
+  | ODie _ d => robust_die lo hi alo ahi d = true
+  | OAlloc _ q ops cells => robust_alloc lo hi alo ahi q ops cells = true
+  | OSat _ ps => True
+  | OLegal _ _ => True
+  end.
+
+Lemma die_model_noparse e a deps tin d : DM.parse d = None -> DM.die_model e a deps tin d = DM.Reject DM.RParse.
+Proof. intro E. unfold DM.die_model, DM.die_with_cover. rewrite E. reflexivity. Qed.
+Lemma alloc_nocand a cells : alloc_cand cells = None -> AL.mk_allocation a cells = None.
+Proof.
+  unfold alloc_cand, AL.mk_allocation. destruct cells as [|c r]; [reflexivity|].
+  destruct (forallb AL.cell_ok (c :: r) && AL.in_quadrant (c :: r)); [discriminate|reflexivity].
+Qed.
+
+(* the effective tolerances of a probe: those of the state, or the probe's own *)
+Lemma eff_some e c : eps_ok e -> band lo hi c ->
+  exists x a, first_writer sqrt_o e (Some c) = Some (x, a) /\ band lo hi x /\ band alo ahi a.
+Proof.
+  intros H C. pose proof (first_writer_ok e (Some c) H C) as K.
+  destruct (first_writer sqrt_o e (Some c)) as [[x a]|] eqn:E.
+  - exists x, a. split; [reflexivity|exact K].
+  - destruct e as [[? ?]|]; discriminate.
+Qed.
+
+Theorem probe_independent s1 s2 p : st_ok s1 -> st_ok s2 -> cand_ok p -> posts_ok p -> probe_robust p ->
+  obs_equiv leg_output (snd (step s1 p)) (snd (step s2 p)).
+Proof.
+  intros [He1 Hm1] [He2 Hm2] C P R. unfold cand_ok in C.
+  destruct p as [t|d|q ops cells|ps|x]; cbn in *.
+  - (* netlist *)
+    destruct R as [R Hd]. unfold netlist_cand in C.
+    destruct (NR.parse_netlist t) as [p|r] eqn:Ep.
+    2:{ unfold NR.read_netlist. rewrite Ep. reflexivity. }
+    destruct (NR.cr_squares sqrt_o (fst p)) as [ms1|r] eqn:Es.
+    2:{ unfold NR.read_netlist, NR.create_rectangles. rewrite Ep. cbn [NR.bind]. rewrite Es. reflexivity. }
+    specialize (Hd p ms1 Ep Es).
+    destruct (NR.smallest_distance sqrt_o ms1) as [dd|] eqn:Ed; [|contradiction]. cbn in C.
+    assert (K : forall e, eps_ok e -> exists x a, NR.epsilon_after sqrt_o e ms1 = Some (x, a) /\
+                                       band lo hi x /\ band alo ahi a).
+    { intros e He. unfold NR.epsilon_after. destruct e as [[x a]|].
+      - exists x, a. split; [reflexivity|exact He].
+      - rewrite Ed. exists (dd * NR.tiny), (sqrt_o (dd * NR.tiny)). split; [reflexivity|]. split; [exact C|].
+        destruct C. split; apply sqrt_mono; assumption. }
+    destruct (K _ He1) as (x1 & y1 & E1 & Bx1 & By1). destruct (K _ He2) as (x2 & y2 & E2 & Bx2 & By2).
+    apply (eps_insensitive_read_netlist sqrt_o lo hi alo ahi x1 x2 y1 y2 Bx1 Bx2 By1 By2); [|exact R].
+    intros p' ms1' Ep' Es'. rewrite Ep in Ep'. injection Ep' as <-. rewrite Es in Es'. injection Es' as <-.
+    split; assumption.
+  - (* die *)
+    unfold die_cand in C. unfold die_out, die_cand.
+    destruct (DM.parse d) as [[[w h] regions]|] eqn:Ep.
+    + destruct (eff_some _ _ He1 C) as (x1 & y1 & E1 & Bx1 & By1).
+      destruct (eff_some _ _ He2 C) as (x2 & y2 & E2 & Bx2 & By2). rewrite E1, E2.
+      exact (eps_insensitive_die_model lo hi alo ahi x1 x2 y1 y2 _ _ d Bx1 Bx2 By1 By2 R).
+    + destruct (g_eps s1) as [[? ?]|], (g_eps s2) as [[? ?]|]; cbn;
+        rewrite ?(die_model_noparse _ _ _ _ d Ep); reflexivity.
+  - (* allocation *)
+    unfold alloc_out. destruct (alloc_cand cells) as [c|] eqn:Ec.
+    + destruct (eff_some _ _ He1 C) as (x1 & y1 & E1 & Bx1 & By1).
+      destruct (eff_some _ _ He2 C) as (x2 & y2 & E2 & Bx2 & By2). rewrite E1, E2.
+      exact (eps_insensitive_alloc_run lo hi alo ahi Lh Ah x1 y1 x2 y2 q ops cells Bx1 Bx2 By1 By2 R).
+    + destruct (g_eps s1) as [[? ?]|], (g_eps s2) as [[? ?]|]; cbn;
+        rewrite ?(alloc_nocand _ cells Ec); reflexivity.
+  - (* SAT *)
+    unfold op_sat.
+    destruct (memory_independent (g_mem s1) (g_mem s2) ps Hm1 Hm2 P)
+      as (m1' & t1 & m2' & t2 & sts & E1 & E2 & _ & _ & X & _).
+    rewrite E1, E2. cbn. split; [reflexivity|exact X].
+  - reflexivity.
+Qed.
+
+(* the result of a robust probe after ANY history on designs of comparable scale equals its result as the
+   first operation of the process *)
+Theorem history_independent : forall (h : list opn) (p : opn),
+  Forall cand_ok h -> Forall posts_ok h -> cand_ok p -> posts_ok p -> probe_robust p ->
+  obs_equiv leg_output (snd (step (run h s_init) p)) (snd (step s_init p)).
+Proof.
+  intros h p Hc Hp C P R.
+  exact (probe_independent (run h s_init) s_init p (run_ok h s_init s_init_ok Hc Hp) s_init_ok C P R).
+Qed.
+
+(* the legaliser's builder never reads the state *)
+Theorem legal_independent : forall s1 s2 x, snd (step s1 (OLegal _ x)) = snd (step s2 (OLegal _ x)).
+Proof. reflexivity. Qed.
+(* the state left by a history never depends on anything but the first writer and the posts *)
+Theorem first_writer_wins : forall s o e, g_eps s = Some e -> g_eps (fst (step s o)) = Some e.
+Proof.
+  intros s o e H. destruct o; cbn; try rewrite H; try reflexivity.
+  unfold op_sat. destruct (run_posts _ _ _) as [[[? ?] ?]|]; exact H.
+Qed.
+End History.
+
+(* ------------------------------------------------------------------ *)
+(* non-vacuity                                                         *)
+(* ------------------------------------------------------------------ *)
+Definition ex_trunk : Rect := mkRect (qc 2 1) (qc 2 1) (qc 2 1) (qc 2 1) false true "_" NOPOLY.
+(* a branch attached exactly to the east side of the trunk *)
+Definition ex_branch : Rect := mkRect (qc 4 1) (qc 2 1) (qc 2 1) (qc 1 1) false true "_" NOPOLY.
+(* the same branch 1e-6 further east: a gap inside the band [1e-9, 1e-3] *)
+Definition ex_branch_gap : Rect := mkRect (qc 4000001 1000000) (qc 2 1) (qc 2 1) (qc 1 1) false true "_" NOPOLY.
+Definition ex_lo : Qc := qc 1 1000000000.
+Definition ex_hi : Qc := qc 1 1000.
+
+(* a robust probe: the theorem applies, and the recognised orthogon is not trivial *)
+Example robust_probe_exists :
+  robust_stog ex_lo ex_hi ex_lo ex_hi [ex_trunk; ex_branch] = true /\
+  create_stog ex_lo ex_lo [ex_trunk; ex_branch] = create_stog ex_hi ex_hi [ex_trunk; ex_branch] /\
+  exists rs, create_stog ex_lo ex_lo [ex_trunk; ex_branch] = Some (true, rs).
+Proof. split; [vm_compute; reflexivity|]. split; [vm_compute; reflexivity|]. eexists. vm_compute. reflexivity. Qed.
+
+(* a non-robust probe: two tolerances of the band give different answers (F15: the answer depends on which
+   design was loaded first) *)
+Example nonrobust_probe_differs :
+  robust_stog ex_lo ex_hi ex_lo ex_hi [ex_trunk; ex_branch_gap] = false /\
+  band ex_lo ex_hi ex_lo /\ band ex_lo ex_hi ex_hi /\
+  touches ex_lo ex_trunk ex_branch_gap <> touches ex_hi ex_trunk ex_branch_gap /\
+  find_location ex_lo ex_lo ex_trunk ex_branch_gap <> find_location ex_hi ex_hi ex_trunk ex_branch_gap /\
+  create_stog ex_lo ex_lo [ex_trunk; ex_branch_gap] <> create_stog ex_hi ex_hi [ex_trunk; ex_branch_gap].
+Proof.
+  split; [vm_compute; reflexivity|].
+  split; [split; apply Qcleb_true; vm_compute; reflexivity|].
+  split; [split; apply Qcleb_true; vm_compute; reflexivity|].
+  split; [vm_compute; discriminate|]. split; vm_compute; discriminate.
+Qed.
+
+(* the hypotheses of history_independent are satisfiable: a history that installs a tolerance and fills the
+   store, then a robust allocation probe (sqrt instantiated by a monotone function) *)
+Definition ex_cell (x : Qc) (m : string) : AL.cell :=
+  AL.mkCell (mkRect x (qc 1 1) (qc 2 1) (qc 2 1) false false "_" NOPOLY) [(m, qc 1 2)] 0.
+Definition ex_hist : list (opn unit) :=
+  [OAlloc unit (qc 1 100) [] [ex_cell (qc 1 1) "A"; ex_cell (qc 3 1) "B"];
+   OSat unit [PNewVar "x"; PNewVar "y"; PIneq (mkI [mkT "x" true 2; mkT "y" true 2; mkT "z" true 1] 3 GE) false]].
+Definition ex_probe : opn unit :=
+  OAlloc unit (qc 1 100) [AL.OpRefine (qc 3 4) 1; AL.OpGriddify] [ex_cell (qc 100 1) "A"; ex_cell (qc 102 1) "B"].
+Definition ex_band_lo : Qc := qc 1 1000000000000000.
+Definition ex_band_hi : Qc := qc 1 100000000.
+Example history_hypotheses_satisfiable :
+  Forall (cand_ok (fun x => x) unit ex_band_lo ex_band_hi) ex_hist /\
+  Forall (posts_ok unit) ex_hist /\
+  cand_ok (fun x => x) unit ex_band_lo ex_band_hi ex_probe /\
+  probe_robust (fun x => x) unit ex_band_lo ex_band_hi ex_probe /\
+  (exists e, g_eps (run (fun x => x) unit unit (fun _ => tt) (fun _ => (0, 0, 0)) ex_hist s_init) = Some e) /\
+  (exists n m, g_mem (run (fun x => x) unit unit (fun _ => tt) (fun _ => (0, 0, 0)) ex_hist s_init) = n :: m) /\
+  exists cs, snd (step (fun x => x) unit unit (fun _ => tt) (fun _ => (0, 0, 0)) s_init ex_probe)
+             = RAlloc unit (Some cs) /\ List.length cs = 4%nat.
+Proof.
+  split. { apply Forall_cons; [unfold cand_ok; vm_compute; split; discriminate|].
+           apply Forall_cons; [exact Logic.I|apply Forall_nil]. }
+  split. { apply Forall_cons; [exact Logic.I|]. apply Forall_cons; [|apply Forall_nil].
+           cbn. apply Forall_cons; [exact Logic.I|]. apply Forall_cons; [exact Logic.I|].
+           apply Forall_cons; [|apply Forall_nil].
+           cbn. repeat (apply Forall_cons; [reflexivity|]). apply Forall_nil. }
+  split. { unfold cand_ok. vm_compute. split; discriminate. }
+  split. { vm_compute. reflexivity. }
+  split. { eexists. vm_compute. reflexivity. }
+  split. { eexists. eexists. vm_compute. reflexivity. }
+  eexists. split; vm_compute; reflexivity.
+Qed.
